@@ -92,7 +92,7 @@ def run_one(spec, cfg, mode, var, limit, stack=None):
 def check_spec(acc, spec, tier):
     fam = SC.family_of(spec)
     nv = len(spec["vars"])
-    for cfg in S.configs_for(spec, tier, full=fam in ("F3", "F4")):
+    for cfg in S.configs_for(spec, tier, full=fam in ("F3", "F4", "F7")):
         runs = [("enumerate", None, None), ("enumerate", None, 1), ("enumerate", None, 2)]
         if fam != "F1" or tier == "thorough":
             runs += [("min", nv - 1, None), ("max", 0, None)]
